@@ -199,10 +199,10 @@ Proof.
 Qed.
 
 (* the checker model never accepts a program that the C06 oracle flags (other than the K1 shape) *)
-Theorem ind_oracle_agrees p p' : env_moded_b (p_types p) = true -> typecheck p = Accept p' ->
+Theorem ind_oracle_agrees p p' : typecheck p = Accept p' ->
   indep_program_v p = IndepOk \/ exists n, indep_program_v p = IndepK1 n.
 Proof.
-  intros Hm H. destruct (tc_indep_program p p' Hm H) as (_ & _ & HF & HP).
+  intros H. destruct (tc_indep_program p p' H) as (_ & _ & HF & HP).
   unfold indep_program_v, completed. rewrite H.
   match goal with |- context [if ?b then _ else _] => assert (E1 : b = false) end.
   { apply existsb_false_forall. intros [f f'] Hin. cbn [fst snd]. apply negb_false_iff.
@@ -224,10 +224,10 @@ Proof.
   match goal with |- context [match ?n with O => _ | S _ => _ end] => destruct n; eauto end.
 Qed.
 
-Theorem drop_split_oracle_agrees p p' : env_moded_b (p_types p) = true -> typecheck p = Accept p' ->
+Theorem drop_split_oracle_agrees p p' : typecheck p = Accept p' ->
   drop_split_program_b p = true.
 Proof.
-  intros Hm H. destruct (tc_drop_split_program p p' Hm H) as (HF & HP).
+  intros H. destruct (tc_drop_split_program p p' H) as (HF & HP).
   unfold drop_split_program_b, completed. rewrite H. apply andb_true_iff. split; apply forallb_forall.
   - intros [f f'] Hin. cbn [fst snd]. apply (forallb_Forall _ drop_split_legal); [apply drop_split_legal_b_iff|auto].
   - intros [q q'] Hin. cbn [fst snd]. apply (forallb_Forall _ drop_split_legal); [apply drop_split_legal_b_iff|auto].
